@@ -41,6 +41,9 @@ pub struct Scn {
     pub importer: String,
     /// the file the documentation assigns to the import under test, when it does
     pub doc_target: Option<String>,
+    /// for naming only: the documented target, or (ambiguous layouts) the candidate both resolvers' comments call
+    /// preferred (.incn, then .incan, then mod.incn, then mod.incan). No oracle demands it for ambiguous layouts.
+    pub label_target: Option<String>,
     pub expect_reject: bool,
     pub order: Vec<usize>,
     pub hash_seed: u64,
@@ -161,7 +164,20 @@ pub fn random_features(seed: u64) -> Features {
         _ => vec![],
     };
     let layout = match cat {
-        "ambiguous" => *r.pick(&["file+mod-dir", "both-ext", "file+mod-dir", "mod-dir+mod-dir-legacy"]),
+        // every subset (size >= 2) of the four candidate files a module path can denote
+        "ambiguous" => *r.pick(&[
+            "amb:incn+incan",
+            "amb:incn+mod.incn",
+            "amb:incn+mod.incan",
+            "amb:incan+mod.incn",
+            "amb:incan+mod.incan",
+            "amb:mod.incn+mod.incan",
+            "amb:incn+incan+mod.incn",
+            "amb:incan+mod.incn+mod.incan",
+            "amb:incn+incan+mod.incn+mod.incan",
+            "amb:incn+mod.incn+mod.incan",
+            "amb:incn+incan+mod.incan",
+        ]),
         "fault" => *r.pick(&["missing", "missing", "dir-as-file", "dangling-symlink", "symlink-loop", "non-utf8", "cycle2", "cycle3", "self-import", "cycle2"]),
         _ => *r.pick(&["file", "file", "file", "legacy-ext", "mod-dir", "mod-dir-legacy", "symlink"]),
     };
@@ -240,6 +256,7 @@ pub fn build(f: &Features, order_seed: u64) -> Scn {
 
     let body = |p: &str| module_body(p, item_kind, &pub_item, &hidden_item, n);
     let mut doc_target: Option<String> = None;
+    let mut preferred: Option<String> = None;
     match layout {
         "file" => {
             let p = format!("{stem}.incn");
@@ -269,19 +286,19 @@ pub fn build(f: &Features, order_seed: u64) -> Scn {
             tree.nodes.push((format!("{stem}.incn"), Node::Symlink(format!("{up}{real}"))));
             doc_target = Some(real);
         }
-        "file+mod-dir" => {
-            for p in [format!("{stem}.incn"), format!("{stem}/mod.incn")] {
+        l if l.starts_with("amb:") => {
+            for c in l[4..].split('+') {
+                let p = match c {
+                    "incn" => format!("{stem}.incn"),
+                    "incan" => format!("{stem}.incan"),
+                    "mod.incn" => format!("{stem}/mod.incn"),
+                    _ => format!("{stem}/mod.incan"),
+                };
                 tree.file(&p, &body(&p));
-            }
-        }
-        "both-ext" => {
-            for p in [format!("{stem}.incn"), format!("{stem}.incan")] {
-                tree.file(&p, &body(&p));
-            }
-        }
-        "mod-dir+mod-dir-legacy" => {
-            for p in [format!("{stem}/mod.incn"), format!("{stem}/mod.incan")] {
-                tree.file(&p, &body(&p));
+                if preferred.is_none() {
+                    // the subsets are spelled in order of preference
+                    preferred = Some(p);
+                }
             }
         }
         "dir-as-file" => tree.nodes.push((format!("{stem}.incn"), Node::Dir)),
@@ -358,6 +375,7 @@ pub fn build(f: &Features, order_seed: u64) -> Scn {
         tree,
         entry,
         importer,
+        label_target: if parent_underflow { None } else { doc_target.clone().or(preferred) },
         doc_target: if f.cat == "resolve" || f.cat.starts_with("visibility") { doc_target } else { None },
         expect_reject: private,
         order,
@@ -574,8 +592,8 @@ fn norm_set(s: &BTreeSet<String>, scn: &Scn) -> String {
     let entry_dir = scn.entry.rsplit_once('/').map(|(d, _)| format!("{d}/")).unwrap_or_default();
     let mut parts: Vec<String> = Vec::new();
     for p in s {
-        let d = if Some(p) == scn.doc_target.as_ref() {
-            "documented-target".to_string()
+        let d = if Some(p) == scn.label_target.as_ref() {
+            "target".to_string()
         } else if *p == scn.importer {
             "importer".to_string()
         } else if p.contains("tmod") || p.contains("impl_") {
@@ -625,7 +643,7 @@ pub fn run_case(scn: &Scn, scratch: &Path, fakebin: &Path) -> CaseOut {
     let root = scratch.join("t");
     scn.tree.materialise(&root, Some(&scn.order));
     let mut out = CaseOut { findings: Vec::new(), fs_faults: BTreeMap::new(), lsp_steps: 0, subprocs: 0, watchdog: false, notes: BTreeMap::new() };
-    if ["dir-as-file", "dangling-symlink", "symlink-loop", "non-utf8", "missing", "cycle2", "cycle3", "self-import", "symlink", "file+mod-dir", "both-ext", "mod-dir+mod-dir-legacy"].contains(&scn.f.layout.as_str()) {
+    if ["dir-as-file", "dangling-symlink", "symlink-loop", "non-utf8", "missing", "cycle2", "cycle3", "self-import", "symlink"].contains(&scn.f.layout.as_str()) || scn.f.layout.starts_with("amb:") {
         *out.fs_faults.entry(scn.f.layout.clone()).or_insert(0) += 1;
     }
     // ---- language server (always survivable: watchdog + step bound)
@@ -785,6 +803,13 @@ pub fn minimise(scn: &Scn, class: &str, outcome: &str, scratch: &Path, fakebin: 
         }
         if (f.cat == "resolve" || f.cat == "visibility") && f.layout != "file" {
             let mut c = f.clone();
+            c.layout = "file".into();
+            cands.push(c);
+        }
+        if f.cat == "ambiguous" {
+            // if the same parties' outcomes persist with a single candidate, ambiguity is not the cause
+            let mut c = f.clone();
+            c.cat = "resolve".into();
             c.layout = "file".into();
             cands.push(c);
         }
